@@ -1,20 +1,20 @@
 #!/bin/sh
 # usage: tools/confirm_seed.sh <Cnn> <mK>  -- independently confirm a seeded change from /tmp/seed_out in a scratch worktree
 # of /repo's current HEAD: (1) full suite passes with the patch, (2) demo exits 1 with it, (3) demo exits 0 without it.
-ID="$1"; M="$2"; SRC=/tmp/seed_out/$ID/$M; WT=/tmp/confirm/$ID-$M; DST=/verif/seeded/$ID-$M
+ID="$1"; M="$2"; ROOTSRC="${3:-/tmp/seed_out}"; SUF="${4:-}"; SRC=$ROOTSRC/$ID/$M; WT=/tmp/confirm/$ID-$M$SUF; DST=/verif/seeded/$ID-$M$SUF
 [ -f "$SRC/patch.diff" ] || { echo "no patch for $ID $M"; exit 2; }
 mkdir -p /tmp/confirm; git -C /repo worktree add -q --detach "$WT" HEAD || exit 2
 cd "$WT"
 cp "$SRC/demo.py" demo.py
-/venv/bin/python demo.py >/tmp/confirm/$ID-$M.clean.log 2>&1; RC_CLEAN=$?
+/venv/bin/python demo.py >/tmp/confirm/$ID-$M$SUF.clean.log 2>&1; RC_CLEAN=$?
 if git apply "$SRC/patch.diff"; then APPLIED=1; else APPLIED=0; fi
-/venv/bin/python demo.py >/tmp/confirm/$ID-$M.mut.log 2>&1; RC_MUT=$?
+/venv/bin/python demo.py >/tmp/confirm/$ID-$M$SUF.mut.log 2>&1; RC_MUT=$?
 SUITE=$(/venv/bin/python -m pytest -q -p no:cacheprovider -n 8 2>&1 | tail -1)
 HEAD=$(git -C /repo rev-parse --short HEAD)
 cd /; git -C /repo worktree remove --force "$WT"
 mkdir -p "$DST"; cp "$SRC/patch.diff" "$SRC/demo.py" "$DST/"; [ -f "$SRC/notes.md" ] && cp "$SRC/notes.md" "$DST/notes.md"
 cat > "$DST/confirm.json" <<EOT
-{"id": "$ID-$M", "property": "$ID", "repo_head": "$HEAD", "patch_applied": $APPLIED, "demo_exit_clean": $RC_CLEAN, "demo_exit_mutated": $RC_MUT, "suite_with_patch": "$SUITE",
+{"id": "$ID-$M$SUF", "property": "$ID", "repo_head": "$HEAD", "patch_applied": $APPLIED, "demo_exit_clean": $RC_CLEAN, "demo_exit_mutated": $RC_MUT, "suite_with_patch": "$SUITE",
  "ran": ["git worktree add /tmp/confirm/$ID-$M HEAD", "python demo.py (clean)", "git apply patch.diff", "python demo.py (mutated)", "python -m pytest -q -n 8 (mutated)"]}
 EOT
-echo "$ID-$M applied=$APPLIED clean=$RC_CLEAN mutated=$RC_MUT suite: $SUITE"
+echo "$ID-$M$SUF applied=$APPLIED clean=$RC_CLEAN mutated=$RC_MUT suite: $SUITE"
